@@ -5,7 +5,6 @@ package app
 
 import (
 	"fmt"
-	"hash/fnv"
 	"sort"
 	"strings"
 	"testing"
@@ -24,7 +23,6 @@ type vfC05Obs struct {
 	hashNoP uint64 // body hash with the publishTime value blanked
 }
 
-func vfHash(b []byte) uint64 { h := fnv.New64a(); h.Write(b); return h.Sum64() }
 
 func TestVerifC05(t *testing.T) {
 	r := rep.New("C05")
